@@ -1000,6 +1000,7 @@ def check_sop_num(ctx: Ctx, case, model_reply=None) -> bool:
     dt = U.TD[case["dtype"]]
     big = torch.full((5,), 9.75, dtype=dt)   # reuse: the optimizer updates its own last/loss tensors in place
     obs, codes = [], []
+    probe_entry = None
     fp0 = fingerprint(sch)
     for i, (last, loss, rc) in enumerate(case["script"]):
         try:
@@ -1010,11 +1011,13 @@ def check_sop_num(ctx: Ctx, case, model_reply=None) -> bool:
                 opt.loss = None
                 try:
                     sch.step(None)
-                    ctx.count("num.sop.probe_not_raised")
                     opt.loss = keep_loss
-                    return ok
+                    ctx.fail(dict(case, step=i), "assert-missing: scheduler.step() called while optimizer.loss is None did not raise "
+                                                 "(documented: 'scheduler.step() should be called after optimizer.step()')")
+                    return False
                 except AssertionError:
                     opt.loss = keep_loss
+                    probe_entry = (U.ctl_code(sch), 3, 3)
                     if (U.ctl_code(sch), fingerprint(sch)) != before:
                         ctx.fail(dict(case, step=i), f"atomic: step() raised its documented check (optimizer.loss is None) but "
                                                      f"changed the scheduler: {U.st_decode(before[0])} -> {U.st_decode(U.ctl_code(sch))}")
@@ -1062,25 +1065,24 @@ def check_sop_num(ctx: Ctx, case, model_reply=None) -> bool:
     if model_reply is not None:
         st_, toks = common.parse_reply(model_reply)
         w = [int(t) for t in toks] if st_ == "ok" else []
-        if len(w) != 3 * len(codes):
-            ctx.disagree("num.sop", case, f"model reply {model_reply[:80]}")
-            return False
+        want = []
         for i, c in enumerate(codes):
-            if w[3 * i] != c:
-                ctx.disagree("num.sop", dict(case, step=i), f"step {i}: implementation {U.st_decode(c)} model "
-                             f"{U.st_decode(w[3 * i])} (last, loss, rc)={case['script'][i]} [{case['vkind']} {case['dtype']}]")
-                ok = False
-                break
-            if (bool(w[3 * i + 1]), bool(w[3 * i + 2])) != (obs[i][0], obs[i][2]):
-                ctx.disagree("num.sop.obs", dict(case, step=i), f"step {i}: model (nodec, rej) differs from exact oracle")
-                ok = False
-                break
+            if probe_entry is not None and case.get("probe_at") == i:
+                want += list(probe_entry)
+            want += [c, int(obs[i][0]), int(obs[i][2])]
+        if w != want:
+            j = next((i for i, (a, b) in enumerate(zip(w, want)) if a != b), min(len(w), len(want))) // 3
+            ctx.disagree("num.sop", dict(case, step=j), f"entry {j} (steps and the failing-assert probe in order): implementation "
+                         f"{want[3 * j:3 * j + 3]} model {w[3 * j:3 * j + 3]} [{case['vkind']} {case['dtype']}]")
+            ok = False
     return ok
 
 
 def sop_num_line(case):
     toks = []
-    for last, loss, rc in case["script"]:
+    for i, (last, loss, rc) in enumerate(case["script"]):
+        if case.get("probe_at") == i:
+            toks.append("none")          # a step() call while optimizer.loss is None: the documented assert fires
         toks.append(f"{to_wire(last)} {to_wire(loss)} {-1 if rc is None else rc}")
     return f"c20.sop.num {case['steps']} {case['patience']} {to_wire(case['D'])} " + " ".join(toks)
 
@@ -1303,8 +1305,8 @@ def run_defaults(ctx: Ctx, n_cases):
     P = pp()
     lines, reals, cases = [], [], []
     for _ in range(n_cases):
-        kind = rng.choice(["rtb", "rtb", "icp", "mpc"])
-        given = kind == "rtb" or rng.random() < 0.6
+        kind = rng.choice(["rtb", "rtb", "icp", "mpc", "sop"])
+        given = kind in ("rtb", "sop") or rng.random() < 0.6
         args = None
         if given:
             args = {"steps": rng.choice([1, 2, 7, 10, 200, 0]), "patience": rng.choice([None, None, 3, 5, 0]),
@@ -1312,7 +1314,12 @@ def run_defaults(ctx: Ctx, n_cases):
         case = {"kind": "defaults", "ctl": kind, "args": args}
         try:
             st = None
-            if args is not None:
+            if kind == "sop":
+                args["tol"] = None
+                st = P.optim.scheduler.StopOnPlateau(FakeOpt(True), args["steps"],
+                                                     **{k: v for k, v in args.items() if k not in ("steps", "tol") and v is not None})
+                st.tol = 0.0
+            elif args is not None:
                 st = P.utils.ReduceToBason(args["steps"], **{k: v for k, v in args.items() if k != "steps" and v is not None})
             if kind == "icp":
                 st = P.module.ICP(stepper=st).stepper
@@ -1324,7 +1331,7 @@ def run_defaults(ctx: Ctx, n_cases):
             continue
         opt = lambda v: "-" if v is None else (str(v) if isinstance(v, int) else to_wire(v))
         lines.append(f"c20.defaults {kind} " + ("-" if args is None else
-                     f"{args['steps']} {opt(args['patience'])} {opt(args['decreasing'])} {opt(args['tol'])}"))
+                     f"{args['steps']} {opt(args['patience'])} {opt(args['decreasing'])}" + ("" if kind == "sop" else f" {opt(args['tol'])}")))
         reals.append((st.max_steps, st.patience, float(st.decreasing), float(st.tol)))
         cases.append(case)
         ctx.note_case(("defaults", kind, json_key(args)), True)
@@ -1340,7 +1347,8 @@ def run_defaults(ctx: Ctx, n_cases):
             # the documented defaults themselves are the oracle
             a = case["args"] or {"steps": 200 if case["ctl"] == "icp" else 10, "patience": None, "decreasing": None, "tol": None}
             doc = (a["steps"] - (1 if case["ctl"] == "mpc" else 0), 5 if a["patience"] is None else a["patience"],
-                   1e-3 if a["decreasing"] is None else a["decreasing"], 1e-5 if a["tol"] is None else a["tol"])
+                   1e-3 if a["decreasing"] is None else a["decreasing"],
+                   0.0 if case["ctl"] == "sop" else (1e-5 if a["tol"] is None else a["tol"]))
             if tuple(real) != doc:
                 ctx.fail(case, f"defaults: {case['ctl']} with arguments {case['args']} installs {real}, documented {doc}")
 
@@ -1608,11 +1616,33 @@ def check_copies(ctx: Ctx, case) -> bool:
         for pl in (ref_a, ref_b):
             while not pl.done():
                 pl.play()
+        is_sop = base["kind"] == "num.sop"
+        ops, reads = [], []        # for the model's heap of schedulers: ops and the public continual() readings after each
+
+        def note(tok, a_, b_):
+            ops.append(tok)
+            reads.append([int(bool(a_.sch.continual())), 2 if b_ is None else int(bool(b_.sch.continual())), 2, 2])
+
+        def sop_tok(pl, idx):
+            last, loss, rc = pl.case["script"][pl.i - 1]
+            nd = U.abs_nodec(last, loss, pl.case["D"], pl.case["dtype"])[0]
+            return f"S {idx} {pl.case['steps']} {pl.case['patience']} {U.obs_code(nd, False, rc is not None and rc > 0)}"
         a = mk(base)
+        if is_sop:
+            note("N 0", a, None)
         for _ in range(k):
             a.play()
+            if is_sop:
+                note(sop_tok(a, 0), a, None)
         b = copy_controller(a, method)
         b.case, b.i = hist_b, k
+        if is_sop:
+            if method == "state_dict":
+                ops.append("N 1")
+                reads.append([int(bool(a.sch.continual())), 1, 2, 2])      # a new scheduler is continual
+                note("L 1 0", a, b)
+            else:
+                note("C 1 0", a, b)
         r = random.Random(case["order_seed"])
         live = [a, b]
         while live:
@@ -1621,10 +1651,22 @@ def check_copies(ctx: Ctx, case) -> bool:
                 live.remove(pl)
                 continue
             pl.play()
+            if is_sop:
+                note(sop_tok(pl, 0 if pl is a else 1), a, b)
     except Exception as e:
         ctx.fail(case, f"raises: copy ({method}) of a controller / its use raised {type(e).__name__}: {str(e)[:120]}")
         return False
     ok = True
+    if is_sop and ops:
+        rep = ctx.driver.run(["c20.sched " + " ".join(ops)])[0]
+        st_, toks = common.parse_reply(rep)
+        w = [int(t) for t in toks] if st_ == "ok" else []
+        want = [x for rd in reads for x in rd]
+        if w != want:
+            j = next((i for i, (x, y) in enumerate(zip(w, want)) if x != y), 0) // 4
+            ctx.disagree("copies.continual", case, f"after op {j} ({ops[j] if j < len(ops) else ''}; copy by {method}): continual() of "
+                         f"(original, copy) = {want[4 * j:4 * j + 2]}, model of the bound wrappers {w[4 * j:4 * j + 2]}")
+            ok = False
     for name, ref, got in (("original", ref_a, a), ("copy", ref_b, b)):
         if ref.codes != got.codes:
             j = next((i for i, (x, y) in enumerate(zip(ref.codes, got.codes)) if x != y), min(len(ref.codes), len(got.codes)))
@@ -1657,7 +1699,8 @@ def gen_copies_case(ctx: Ctx, n_max=12):
             c["has_reject"] = True
             c["script"] = [[a, b, 0 if rc is None else rc] for a, b, rc in c["script"]]
         alt = dict(alt, **{k: base[k] for k in ("steps", "patience", "d", "D", "vkind", "dtype", "verbose", "style")})
-        alt["script"] = [[U.rnd(a, base["dtype"]), U.rnd(b, base["dtype"]), rc] for a, b, rc in alt["script"]]
+        fin = lambda v: v if math.isfinite(v) else 1.0        # rounding a float64 extreme to float32 may overflow
+        alt["script"] = [[fin(U.rnd(a, base["dtype"])), fin(U.rnd(b, base["dtype"])), rc] for a, b, rc in alt["script"]]
         n = len(base["script"])
     return {"kind": "copies", "base": base, "alt": alt, "at": rng.randint(0, n),
             "method": rng.choice(COPY_METHODS + (["copy", "state_dict"] if base["kind"] == "num.sop" else [])),
